@@ -119,6 +119,30 @@ def build():
         raise GenError("ZoneUpdater::apply arms changed: %r" % (commits,))
     defs.append(("commit_arms", "list N", "[4%N; 6%N]"))
     defs.append(("update_soa_arms", "list N", "[5%N; 6%N]"))
+    # zonetree/in_memory/write.rs: rollback arming and the version the diff is taken against
+    wr = strip_comments(read("src/zonetree/in_memory/write.rs"))
+    op = fn_body(wr, "open", after="impl WritableZone for WriteZone")
+    one(r"if\s+let\s+Ok\(write_node\)\s*=\s*&new_apex\s*\{\s*\*self\.diff\.lock\(\)\.unwrap\(\)\s*=\s*write_node\.diff\(\);\s*self\.dirty\.store\(true,\s*Ordering::SeqCst\);\s*\}", op, "WriteZone::open arms dirty")
+    dr = fn_body(wr, "drop", after="impl Drop for WriteZone")
+    one(r"^\s*if\s+self\.dirty\.swap\(false,\s*Ordering::SeqCst\)\s*\{\s*self\.apex\.rollback\(self\.new_version\);\s*\}\s*$", dr, "WriteZone::drop rolls back when dirty")
+    pv = fn_body(wr, "publish_new_zone_version", after="impl WriteZone")
+    one(r"self\.new_version\s*=\s*self\.new_version\.next\(\);\s*self\.dirty\.store\(false,\s*Ordering::SeqCst\);", pv, "publish resets dirty")
+    cl = impl_body(wr, r"impl\s+Clone\s+for\s+WriteZone")
+    one(r"dirty\s*:\s*Default::default\(\)\s*,", cl, "WriteZone::clone starts clean")
+    defs.append(("rollback_armed_on_open", "bool", "true"))
+    ur = fn_body(wr, "update_rrset", after="impl WriteNode")
+    one(r"rrsets\s*\.get\(new_rrset\.rtype\(\),\s*self\.zone\.last_published_version\(\)\)", ur, "update_rrset compares with the published version")
+    one(r"rrsets\.update\(new_rrset,\s*self\.zone\.new_version\);", ur, "update_rrset writes the new version")
+    rr = fn_body(wr, "remove_rrset", after="impl WriteNode")
+    one(r"if\s+let\s+Some\(removed\)\s*=\s*rrsets\.get\(rtype,\s*self\.zone\.last_published_version\(\)\)\s*\{.*?diff\.lock\(\)\.unwrap\(\)\.remove\(\s*owner\.clone\(\),\s*rtype,\s*removed\.clone\(\),?\s*\);", rr, "remove_rrset records the published RRset")
+    one(r"rrsets\.remove_rtype\(rtype,\s*self\.zone\.new_version\);", rr, "remove_rrset edits the new version")
+    gr = fn_body(wr, "get_rrset", after="impl WriteNode")
+    one(r"Ok\(rrsets\.get\(rtype,\s*self\.zone\.new_version\)\)", gr, "get_rrset reads the new version")
+    defs.append(("diff_against_published", "bool", "true"))
+    ra = fn_body(wr, "remove_all", after="impl WriteNode")
+    if "diff" in ra:
+        raise GenError("WriteNode::remove_all now touches the diff: update the model (known class diff_misses_delete_all)")
+    defs.append(("remove_all_bypasses_diff", "bool", "true"))
     return defs
 
 if __name__ == "__main__":
